@@ -331,8 +331,8 @@ impl Interpreter {
                 state.stack.push(sum.to_signed_bytes_le());
             }
             OpCodes::OP_SUB => {
-                let a = state.stack.pop_bigint()?;
                 let b = state.stack.pop_bigint()?;
+                let a = state.stack.pop_bigint()?;
 
                 state.stack.push_bigint(a - b)?;
             }
@@ -343,14 +343,22 @@ impl Interpreter {
                 state.stack.push_bigint(a * b)?;
             }
             OpCodes::OP_DIV => {
-                let a = state.stack.pop_bigint()?;
                 let b = state.stack.pop_bigint()?;
+                let a = state.stack.pop_bigint()?;
+
+                if b == BigInt::from(0) {
+                    return Err(InterpreterError::InvalidStackOperation("Division by zero"));
+                }
 
                 state.stack.push_bigint(a / b)?;
             }
             OpCodes::OP_MOD => {
-                let a = state.stack.pop_bigint()?;
                 let b = state.stack.pop_bigint()?;
+                let a = state.stack.pop_bigint()?;
+
+                if b == BigInt::from(0) {
+                    return Err(InterpreterError::InvalidStackOperation("Division by zero"));
+                }
 
                 state.stack.push_bigint(a % b)?;
             }
@@ -397,26 +405,26 @@ impl Interpreter {
                 state.stack.push_bool(a != b)?;
             }
             OpCodes::OP_LESSTHAN => {
-                let a = state.stack.pop_bigint()?;
                 let b = state.stack.pop_bigint()?;
+                let a = state.stack.pop_bigint()?;
 
                 state.stack.push_bool(a < b)?;
             }
             OpCodes::OP_LESSTHANOREQUAL => {
-                let a = state.stack.pop_bigint()?;
                 let b = state.stack.pop_bigint()?;
+                let a = state.stack.pop_bigint()?;
 
                 state.stack.push_bool(a <= b)?;
             }
             OpCodes::OP_GREATERTHAN => {
-                let a = state.stack.pop_bigint()?;
                 let b = state.stack.pop_bigint()?;
+                let a = state.stack.pop_bigint()?;
 
                 state.stack.push_bool(a > b)?;
             }
             OpCodes::OP_GREATERTHANOREQUAL => {
-                let a = state.stack.pop_bigint()?;
                 let b = state.stack.pop_bigint()?;
+                let a = state.stack.pop_bigint()?;
 
                 state.stack.push_bool(a >= b)?;
             }
